@@ -91,7 +91,7 @@ def partial_case(ctx, lines, pend):
     B = np.triu((r.rand(n, n) < float(r.choice([0, 0.1, 0.3]))).astype(float), 1); B = B + B.T
     maxswap = int(r.choice([0, 1, 2, 4]))
     seed = int(r.randint(1, 2 ** 31 - 1))
-    res = run_impl(fn, A, maxswap, seed, B=B, t=3.0)
+    res = run_impl(fn, A, maxswap, seed, B=B, t=1.0)
     case = {'fn': fn, 'A': A.astype(int).tolist(), 'B': B.astype(int).tolist(), 'itr': maxswap, 'seed': seed}
     ctx.case(case, nontrivial=len(res['events']) > 0)
     ctx.count('%s:%s' % (fn, fam))
